@@ -71,6 +71,9 @@ func (E *Engine) declSums() {
 	D.Axiom("(forall ((n Int) (D2 (Array Int Str)) (A (Array Int Int)) (D (Array Int Str)) (B (Array Int Int)) (C (Array Int Int)) (d Str)) (! (=> (not (= (bsum n D2 A d) (- (bsum n D B d) (bsum n D C d)))) (let ((w (bsum_lin2 n D2 A D B C))) (and (<= 0 w) (< w n) (or (not (= (select D2 w) (select D w))) (not (= (select A w) (- (select B w) (select C w)))))))) :pattern ((bsum_lin2 n D2 A D B C) (bsum n D2 A d))))")
 	D.Fun("bsum_le", []Sort{SInt, sArrIS, sArrII, sArrII, SStr}, SInt)
 	D.Axiom("(forall ((n Int) (D (Array Int Str)) (A (Array Int Int)) (B (Array Int Int)) (d Str)) (! (=> (> (bsum n D A d) (bsum n D B d)) (let ((w (bsum_le n D A B d))) (and (<= 0 w) (< w n) (> (select A w) (select B w))))) :pattern ((bsum_le n D A B d))))")
+	// explicit step instance (E-matching on (+ n 1) is fragile once the arithmetic is normalised)
+	D.Fun("bsum_step", []Sort{SInt, sArrIS, sArrII, SStr}, SInt)
+	D.Axiom("(forall ((n Int) (D (Array Int Str)) (A (Array Int Int)) (d Str)) (! (=> (>= n 0) (= (bsum (+ n 1) D A d) (+ (bsum n D A d) (ite (= (select D n) d) (select A n) 0)))) :pattern ((bsum_step n D A d))))")
 	D.Fun("hint", []Sort{SInt}, SBool)
 	D.Axiom("(forall ((x Int)) (! (hint x) :pattern ((hint x))))")
 	// slarr(f, A)[j] = floor(f * A[j]): the per-entry slash amounts
@@ -235,6 +238,10 @@ func init() {
 	ghostFuns["use_le"] = func(ev *Evaluator, a []*Term) Val {
 		ev.E.declBucketSums(ev.M)
 		return App(SBool, "hint", App(SInt, "bsum_le", a...))
+	}
+	ghostFuns["use_step"] = func(ev *Evaluator, a []*Term) Val {
+		ev.E.declBucketSums(ev.M)
+		return App(SBool, "hint", App(SInt, "bsum_step", a...))
 	}
 	ghostFuns["use_el"] = func(ev *Evaluator, a []*Term) Val {
 		ev.E.declBucketSums(ev.M)
